@@ -176,7 +176,11 @@ def run_job(job, io):
         elif dv == 2 and spec.num_children:
             spec, derived = spec.children()[tape.draw(spec.num_children, 'derive-child')], 'children'
         elif dv == 3:
-            spec, derived = spec.compose(optree.tree_structure({'q': 0, 'p': (0, None)}, none_is_leaf=nil, namespace=ns)), 'compose'
+            # every pairing of the two operands' namespaces that compose() accepts: equal, and empty on either side (built-in
+            # nodes only); the composed treespec must record the namespace its custom nodes were found in
+            cm = tape.draw(4, 'compose-form')
+            blt = optree.tree_structure({'q': 0, 'p': (0, None)}, none_is_leaf=nil, namespace=ns if cm in (0, 1) else '')
+            spec, derived = (spec.compose(blt) if cm in (0, 2) else blt.compose(spec)), 'compose'
         elif dv == 4:
             spec, derived = optree.treespec_tuple([spec, optree.treespec_leaf(none_is_leaf=nil)], none_is_leaf=nil, namespace=ns), 'ctor'
         elif dv == 5:
